@@ -3,6 +3,9 @@
 //!
 //! fields: src (buildpack directory below the scratch root, as spelled) | buildpack uri (hex) | dependency uris (hex,…)
 //!         | platform (none|linux|windows) | map (hexid=hexpath,…; a path may start with `$T` = scratch root)
+//!         | optional 6th field, harness only: `twice` (the function is called twice with the same destination, which then already holds
+//!           both files; the second result is observed), `link` (the last component of the source location is a symbolic link to a real
+//!           directory elsewhere below the scratch root), `twice+link`
 //! observation: `ok;<hex buildpack uri>;<hex dep>,…;<os>;reparse=0|1` (scratch root printed as `$T`) or `err:<kind>[:<hexid>]`
 use cnbv::*;
 use libcnb_data::buildpack::BuildpackId;
@@ -32,6 +35,8 @@ fn run_case(f: &[String]) -> String {
     let bp = unhx(&f[1]);
     let deps: Vec<String> = split_list(&f[2], ",").iter().map(|d| unhx(d)).collect();
     let platform = f[3].as_str();
+    let opt = f.get(5).map(String::as_str).unwrap_or("");
+    let (twice, link) = match opt { "" => (false, false), "twice" => (true, false), "link" => (false, true), "twice+link" => (true, true), _ => return "bad-case".into() };
     let tmp = tempfile::Builder::new().prefix("c14-").tempdir_in("/tmp").unwrap();
     let root = tmp.path().to_str().unwrap().to_string();
     let mut map: BTreeMap<BuildpackId, PathBuf> = BTreeMap::new();
@@ -44,8 +49,23 @@ fn run_case(f: &[String]) -> String {
     let bdir = PathBuf::from(format!("{root}/{src}"));
     // make every directory the spelling passes through (so `sub/..` and a trailing `/.` resolve)
     let mut cur = PathBuf::from(&root);
-    for piece in src.split('/') {
-        match piece { "" | "." => {} ".." => { cur.pop(); } name => { cur.push(name); if !cur.is_dir() { fs::create_dir(&cur).unwrap(); } } }
+    let names: Vec<&str> = src.split('/').filter(|p| !p.is_empty() && *p != ".").collect();
+    let last_name = names.iter().rposition(|p| *p != "..");
+    for (k, piece) in names.iter().enumerate() {
+        match *piece {
+            ".." => { cur.pop(); }
+            name => {
+                cur.push(name);
+                if !cur.is_dir() {
+                    // `link`: the last name of the spelling is a symbolic link to a directory that lives elsewhere (and at another depth)
+                    if link && Some(k) == last_name && names[k + 1..].is_empty() {
+                        let real = PathBuf::from(format!("{root}/real/deep/er/dir"));
+                        fs::create_dir_all(&real).unwrap();
+                        std::os::unix::fs::symlink(&real, &cur).unwrap();
+                    } else { fs::create_dir(&cur).unwrap(); }
+                }
+            }
+        }
     }
     assert!(bdir.is_dir());
     let dest = PathBuf::from(format!("{root}/out"));
@@ -56,6 +76,15 @@ fn run_case(f: &[String]) -> String {
     if platform != "none" { text.push_str(&format!("\n[platform]\nos = \"{platform}\"\n")); }
     fs::write(bdir.join("package.toml"), &text).unwrap();
 
+    if twice {
+        // first call: the destination is empty; the observed (second) call finds both files there already
+        let _ = package_composite_buildpack(&bdir, &dest, &map);
+        // … and longer than what will be written: stale entries after the first result (a writer that does not truncate shows them)
+        if let Ok(mut first) = fs::read_to_string(dest.join("package.toml")) {
+            for k in 0..64 { first.push_str(&format!("\n[[dependencies]]\nuri = \"stale:entry/{k}\"\n")); }
+            fs::write(dest.join("package.toml"), first).unwrap();
+        }
+    }
     match package_composite_buildpack(&bdir, &dest, &map) {
         Err(PackageCompositeBuildpackError::CouldNotCopyBuildpackToml(_)) => "err:copy".into(),
         Err(PackageCompositeBuildpackError::CouldNotReadPackageDescriptor(_)) => "err:read".into(),
@@ -122,6 +151,9 @@ fn rel_path(r: &mut Rng) -> (String, bool) {
 }
 
 fn generate(tier: &str, seed: u64, emit: &mut dyn FnMut(Case)) {
+    // directed families (sizes, character content, schemes, correlated ids, repeated calls, linked source) and the wide sampler
+    generate_directed(tier == "thorough", seed, emit);
+    generate_wide(tier == "thorough", seed, emit);
     let samples: u64 = if tier == "thorough" { 50_000 } else { 3_000 };
     for idx in 0..samples {
         let mut r = Rng::for_case(seed, idx);
@@ -164,6 +196,387 @@ fn generate(tier: &str, seed: u64, emit: &mut dyn FnMut(Case)) {
             // non-trivial: a libcnb reference is resolved or refused, or a relative path with `..` is rewritten
             nontrivial: n_lib + n_missing + n_invalid > 0 || deps.iter().any(|d| !d.contains(':') && !d.starts_with('/') && d.split('/').any(|p| p == "..")),
         });
+    }
+}
+
+// ------------------------------------------------------------------------------------------------ directed families and the wide sampler
+
+/// sizes on both sides of the thresholds at which containers / sorts / buffers change behaviour
+const SIZES: &[usize] = &[16, 17, 20, 21, 32, 33, 64, 65, 128, 129, 256, 257];
+const SIZES_THOROUGH: &[usize] = &[500, 1000, 2049];
+
+/// path segments made of every character class a URI path segment may hold (RFC 3986 pchar): unreserved, sub-delims, ':' '@', percent-encoded
+/// octets (blank, '%', '/', '.', NUL, upper/lower hex, UTF-8 sequences, BOM), dots in every position
+const SEGS: &[&str] = &[
+    "%20", "my%20bp", "a%20%20b", "100%25", "%25", "%2520", "%2e", "%2E", "%2e%2e", "%2E%2E", ".%2e", "%2e.", "..%2F", "%2F", "%2f", "a%2Fb", "%5C", "%00", "%0A", "%0D%0A", "%7e", "%7E", "%41", "%61%62",
+    "%C3%BC", "%c3%bc", "%E2%9C%93", "%EF%BB%BF", "%EF%BB%BFbom", "%F0%9F%93%A6", "%FF%FE", "~", "~user", "a~", "+", "a+b", "++", "-", "--x", "x-", "_", "__", "$x", "$", "$t", "&", "a&b=c", ";", "a;v=1", ",", "a,b", "=", "'", "''", "(", ")", "()", "*", "**", "!", "@", "a@b", "@@",
+    "...", "....", ".x", "x.", "..x", "x..", "..;", ";..", ".,", "..,", "..%20", ".git", ".cargo", "x.y.z", "1", "0", "00", "-0", "CON", "NUL", "Com1", "APP", "App", "Config", "SBOM", "libcnb", "LIBCNB", "package.toml", "buildpack.toml", "target", "tmp", "out", "packaged",
+];
+/// segments holding a colon: legal everywhere but in the first segment of a scheme-less reference
+const COLON_SEGS: &[&str] = &["a:b", ":", "::", "c:", ":x", "libcnb:x", "http:", "1:2"];
+
+/// source locations (created for real below the scratch root): percent-encoded octets, sub-delims, dots, deep, long names
+fn wide_srcs() -> Vec<String> {
+    let mut v: Vec<String> = ["ws/my%20bp", "ws/100%25/bp", "ws/%2e%2e/bp", "ws/%2E/%2F/bp", "ws/a&b/$x", "ws/+/~", "ws/.../....", "ws/bp//./.", "ws/..x/x../bp", "ws/%C3%BC/%E2%9C%93", "ws/a=b,c;d/(x)!*'", "ws/-/_/0", "ws/Bp/bP/BP",
+        "ws/./sub/.././sub/../bp", "ws/packaged/bp", "out/bp", "packaged/x86", "ws/@/:", "ws/~t/%7Et", "w", "ws/%EF%BB%BF/bp"].iter().map(|s| s.to_string()).collect();
+    v.push(vec!["d"; 40].join("/"));                                   // 40 levels
+    v.push(format!("ws/{}/bp", "n".repeat(200)));                      // a 200-character name
+    v.push(format!("ws/{}", "L".repeat(255)));                         // NAME_MAX
+    v.push((0..120).map(|i| format!("p{i}")).collect::<Vec<_>>().join("/")); // 120 levels, distinct names
+    v.push(format!("{}/bp", vec!["sub/.."; 30].join("/")));            // 30 times down and up again
+    v
+}
+
+/// scheme names: registered ones of every shape ('.', '+', '-', digits), unregistered ones, names that share a prefix with `libcnb`
+const SCHEMES_REG: &[&str] = &["docker", "http", "https", "urn", "file", "ftp", "sftp", "ssh", "git", "svn", "data", "ws", "wss", "ldap", "ldaps", "tel", "sip", "sips", "jar", "about", "blob", "magnet", "news", "nfs", "nntp",
+    "pkcs11", "redis", "rediss", "rtsp", "smb", "tag", "telnet", "view-source", "vnc", "xmpp", "z39.50r", "z39.50s", "ms-excel", "soap.beep", "iris.xpc", "coap+tcp", "coaps+ws", "mailto", "geo", "dns", "cid", "mid", "h323", "irc", "ipp", "pop", "imap", "tftp", "gopher", "go", "dav", "dict", "did", "example", "s3"];
+const SCHEMES_UNREG: &[&str] = &["oci", "x", "a1", "a+b", "a.b", "a-b", "zz9", "foo+bar.baz-1", "cnb", "pack", "registry", "buildpack", "FooBar", "X-y", "aA0+.-", "q"];
+const SCHEMES_LIBCNBLIKE: &[&str] = &["libcnb2", "libcnbx", "libcnb-x", "libcnb.x", "libcnb+x", "lib", "libcn", "libcnbb", "xlibcnb", "libcnb-rs", "cnb"];
+
+/// ids that share prefixes, differ by one edit or by case, continue a reserved word, or are dotted / slashed prefixes of one another
+const CORR_IDS: &[&str] = &["a", "a.b", "a.b.c", "a/b", "a/b/c", "a-b", "a0", "A", "A.b", "aa", "ab", "b", "heroku/nodejs", "heroku/nodejs-engine", "heroku/nodejs-engin", "heroku/nodejs.engine", "Heroku/nodejs", "heroku/Nodejs", "heroku/nodej",
+    "heroku", "heroku/", "heroku/nodejs/", "/heroku/nodejs", "apps", "app-foo", "app.x", "app/x", "ap", "App", "APP", "config.d", "configs", "confi", "Config", "sbom-x", "sbo", "SBOM", "sbom/app", "app/config/sbom", "0", "00", "-", ".", "..", "./.", "../x", "x/../y", "-.-", "a//b"];
+
+fn is_spelling_class(u: &str) -> bool {
+    // has a scheme and (an upper-case letter in it, or `//authority` followed by an empty path): what known finding C14-authority-empty-path is about
+    let Some((sch, rest)) = u.split_once(':') else { return false };
+    if sch.is_empty() || !sch.chars().next().unwrap().is_ascii_alphabetic() || !sch.chars().all(|c| c.is_ascii_alphanumeric() || "+-.".contains(c)) { return false; }
+    if sch.chars().any(|c| c.is_ascii_uppercase()) { return true; }
+    if let Some(body) = rest.strip_prefix("//") { let auth_end = body.find(['/', '?', '#']).unwrap_or(body.len()); return !body[auth_end..].starts_with('/'); }
+    false
+}
+
+struct D14 { src: String, bp: String, deps: Vec<String>, platform: &'static str, map: Vec<(String, String)>, opt: &'static str, kind: String }
+
+fn bucket(n: usize) -> String { match n { 0..=12 => n.to_string(), 13..=16 => "13-16".into(), 17..=32 => "17-32".into(), 33..=64 => "33-64".into(), 65..=128 => "65-128".into(), 129..=256 => "129-256".into(), 257..=1024 => "257-1024".into(), _ => ">1024".into() } }
+
+fn d14_case(d: &D14) -> Case {
+    let is_rel = |u: &str| !u.starts_with('/') && !{ let head = u.split('/').next().unwrap_or(""); head.contains(':') };
+    let n_lib = d.deps.iter().filter(|u| u.starts_with("libcnb:")).count();
+    let n_rel = d.deps.iter().filter(|u| is_rel(u)).count();
+    let climbs = d.deps.iter().filter(|u| is_rel(u) && u.split('/').filter(|p| *p == "..").count() >= 3).count();
+    let spelling = is_spelling_class(&d.bp) || d.deps.iter().any(|u| is_spelling_class(u));
+    let maxlen = d.deps.iter().map(|u| u.len()).max().unwrap_or(0).max(d.bp.len());
+    let root_colon = first_seg_colon(&d.bp) || d.deps.iter().any(|u| first_seg_colon(u) || lands_on_root_colon(&d.src, u)) || d.map.iter().any(|(_, p)| first_seg_colon(p));
+    let pct = d.deps.iter().any(|u| u.contains('%')) || d.src.contains('%') || d.map.iter().any(|(_, p)| p.contains('%'));
+    let mut fields = vec![d.src.clone(), hx(&d.bp), join(",", &d.deps.iter().map(|u| hx(u)).collect::<Vec<_>>()), d.platform.to_string(),
+                          join(",", &d.map.iter().map(|(k, v)| format!("{}={}", hx(k), hx(v))).collect::<Vec<_>>())];
+    if !d.opt.is_empty() { fields.push(d.opt.to_string()); }
+    let src_tag: String = d.src.chars().take(24).map(|c| if c == ';' || c == '=' || c == '#' { '_' } else { c }).collect();
+    Case {
+        fields,
+        tags: vec![("kind".into(), d.kind.clone()), ("deps".into(), bucket(d.deps.len())), ("libcnb".into(), bucket(n_lib)), ("relative".into(), bucket(n_rel)), ("other".into(), bucket(d.deps.len() - n_lib - n_rel)),
+                   ("climbing".into(), climbs.min(3).to_string()), ("platform".into(), d.platform.into()), ("spelling".into(), u8::from(spelling).to_string()), ("src".into(), src_tag),
+                   ("map".into(), bucket(d.map.len())), ("opt".into(), if d.opt.is_empty() { "once".into() } else { d.opt.to_string() }), ("percent".into(), u8::from(pct).to_string()), ("root-colon".into(), u8::from(root_colon).to_string()),
+                   ("maxlen".into(), match maxlen { 0..=63 => "<64", 64..=255 => "64-255", 256..=4095 => "256-4095", _ => ">=4096" }.into())],
+        nontrivial: n_lib > 0 || d.deps.iter().any(|u| is_rel(u) && u.split('/').any(|p| p == "..")),
+    }
+}
+
+/// Does a relative dependency resolve (lexically, from the source location two levels below `/`) to a path whose first segment holds a
+/// colon, e.g. `/c:/x`?  uriparse 0.6 refuses such a text although RFC 3986 allows it (path-absolute = "/" segment-nz …, segment-nz may hold ':'),
+/// so the real code answers `err:uri-of-absolutized-path` (known finding C14-root-colon-segment; only used for the tag `root-colon`).
+fn lands_on_root_colon(src: &str, dep: &str) -> bool {
+    if dep.starts_with('/') || dep.split('/').next().unwrap_or("").contains(':') { return false; }
+    let mut comps: Vec<&str> = vec!["tmp", "T"];
+    for piece in src.split('/').chain(dep.split('/')) { match piece { "" | "." => {} ".." => { comps.pop(); } name => comps.push(name) } }
+    comps.first().is_some_and(|c| c.contains(':'))
+}
+/// the text is `/` followed by a first segment holding a colon (refused by uriparse wherever it occurs)
+fn first_seg_colon(u: &str) -> bool { u.strip_prefix('/').is_some_and(|rest| rest.split('/').next().unwrap_or("").contains(':')) }
+
+fn loc_for(r: &mut Rng, leaf: &str) -> String {
+    match r.below(6) { 0 => format!("/opt/packaged/{leaf}"), 1 => format!("$T/packaged/x86/../{leaf}/"), 2 => format!("$T/out/./{leaf}"), 3 => "$T".to_string(), 4 => format!("$T/packaged/{}/{leaf}", r.pick(SEGS)), _ => format!("$T/packaged/{leaf}") }
+}
+fn leaf_of(id: &str) -> String { id.replace('/', "_") }
+
+/// valid buildpack ids only (the map is typed `BTreeMap<BuildpackId, _>`): letters, digits, '.', '/', '-', not a reserved word
+fn valid_id(id: &str) -> bool { !id.is_empty() && id.chars().all(|c| c.is_ascii_alphanumeric() || "./-".contains(c)) && !["app", "config", "sbom"].contains(&id) }
+
+fn generate_directed(thorough: bool, seed: u64, emit: &mut dyn FnMut(Case)) {
+    let mut idx: u64 = 0;
+    let rng = |idx: &mut u64| { *idx += 1; Rng::for_case(seed ^ 0x14D1_4EC7, *idx) };
+    let srcs = wide_srcs();
+    let sizes: Vec<usize> = if thorough { SIZES.iter().chain(SIZES_THOROUGH).copied().collect() } else { SIZES.to_vec() };
+    let base = |kind: &str| D14 { src: "ws/bp".into(), bp: ".".into(), deps: vec![], platform: "none", map: vec![], opt: "", kind: kind.into() };
+
+    // ---- 1. many dependencies: sizes around 16/17 … 256/257 (thorough: 500, 1000, 2049)
+    for &n in &sizes {
+        for shape in 0..8 {
+            let mut r = rng(&mut idx);
+            let mut d = base("many-deps");
+            d.src = if shape % 2 == 0 { "ws/bp".into() } else { r.pick(&srcs).clone() };
+            let m = match shape { 0 => 5, 1 => n, 2 => 33, _ => 7 };
+            let ids: Vec<String> = (0..m).map(|i| format!("org{}/bp-{i}", i % 3)).collect();
+            d.map = ids.iter().map(|id| (id.clone(), loc_for(&mut r, &leaf_of(id)))).collect();
+            d.deps = (0..n).map(|i| match shape {
+                0 | 1 => format!("libcnb:{}", ids[i % m]),                                           // libcnb references only (every id again and again / each once)
+                2 => format!("libcnb:{}", ids[(i * 7 + 3) % m]),
+                3 => format!("../d{i}/./x"),                                                           // distinct relative paths
+                4 => "../same/dep".to_string(),                                                        // one dependency n times
+                5 => match i % 4 { 0 => format!("libcnb:{}", ids[i % m]), 1 => format!("sub/../../up{i}"), 2 => (*r.pick(OTHERS)).to_string(), _ => format!("/abs/{i}/../x") },
+                6 => { let (p, _) = rel_path(&mut r); p }                                              // random relative paths
+                _ => match r.below(3) { 0 => format!("libcnb:{}", r.pick(&ids)), 1 => { let (p, _) = rel_path(&mut r); p }, _ => (*r.pick(OTHERS)).to_string() },
+            }).collect();
+            d.opt = *r.pick(&["", "", "twice", "link"]);
+            d.platform = *r.pick(&["none", "linux", "windows"]);
+            emit(d14_case(&d));
+            // the same with one reference that has no location / an invalid id, placed last, first, and right after a threshold
+            if shape == 0 || shape == 5 {
+                for (at, bad) in [(n - 1, "libcnb:org9/missing"), (0, "libcnb:org9/missing"), (n / 2 + 1, "libcnb:under_score"), (n - 1, "libcnb:app")] {
+                    let mut e = D14 { deps: d.deps.clone(), map: d.map.clone(), src: d.src.clone(), bp: d.bp.clone(), kind: if bad.ends_with("missing") { "many-deps-missing".into() } else { "many-deps-invalid".into() }, ..base("") };
+                    e.deps[at] = bad.to_string();
+                    emit(d14_case(&e));
+                }
+            }
+        }
+    }
+    // ---- 2. big id -> path maps, ids sharing prefixes; every id referenced once in shuffled order; one prefix / extension of a known id missing
+    for &m in sizes.iter().filter(|m| [17usize, 33, 65, 129, 257, 1000].contains(m)) {
+        for variant in 0..3 {
+            let mut r = rng(&mut idx);
+            let mut ids: Vec<String> = vec![];
+            let stems = ["a", "heroku/nodejs", "x.y", "app", "config", "sbom", "B"];
+            let mut k = 0;
+            while ids.len() < m {
+                let stem = stems[k % stems.len()];
+                let depth = k / stems.len();
+                let id = match depth { 0 => stem.to_string(), d => format!("{stem}{}", (0..d).map(|j| format!("{}{}", [".", "/", "-"][(j + k) % 3], (j + k) % 10)).collect::<String>()) };
+                if valid_id(&id) && !ids.contains(&id) { ids.push(id); }
+                k += 1;
+            }
+            let mut d = base("big-map");
+            d.src = r.pick(&srcs).clone();
+            d.map = ids.iter().map(|id| (id.clone(), loc_for(&mut r, &leaf_of(id)))).collect();
+            let mut order = ids.clone();
+            r.shuffle(&mut order);
+            d.deps = order.iter().map(|id| format!("libcnb:{id}")).collect();
+            if variant == 1 { let at = r.below(d.deps.len() as u64) as usize; let gone = d.deps[at].clone(); d.map.retain(|(k, _)| format!("libcnb:{k}") != gone); d.kind = "big-map-missing".into(); }
+            if variant == 2 { d.opt = "twice"; d.deps.truncate(40); }
+            emit(d14_case(&d));
+        }
+    }
+    // ---- 3. '..' chains and deep / long relative paths, against source locations of different depth
+    let chain_sizes: Vec<usize> = { let mut v: Vec<usize> = (0..=9).collect(); v.extend(&sizes); v };
+    for src in ["ws/bp", "x", "ws/deep/er/bp", "ws/sub/../bp", srcs[srcs.len() - 5].as_str(), srcs[srcs.len() - 2].as_str()] {
+        let mut d = base("dot-chains");
+        d.src = src.to_string();
+        for &k in &chain_sizes {
+            let up = vec![".."; k].join("/");
+            d.deps.push(if k == 0 { ".".into() } else { up.clone() });
+            d.deps.push(format!("{}{}x/y", up, if k == 0 { "" } else { "/" }));
+            d.deps.push(format!("{}/", vec!["a/.."; k.max(1)].join("/")));                         // down and up again k times
+            d.deps.push(format!("{}/{}", vec!["n"; k.max(1)].join("/"), vec![".."; k.max(1)].join("/"))); // k down, then k up
+            if k > 0 { d.deps.push(format!("{}/{}/t", vec!["n"; k].join("/"), vec![".."; k + 1].join("/"))); } // k down, k+1 up
+            d.deps.push(format!("{}z", vec!["./"; k.max(1)].join("/")));                            // './' and '//' runs
+        }
+        emit(d14_case(&d));
+        // the same chains one per descriptor for a few sizes (position-independent errors show as single-dependency replays)
+        for &k in &[1usize, 2, 3, 4, 5, 33, 257] {
+            let mut e = base("dot-chains");
+            e.src = src.to_string();
+            e.deps = vec![format!("{}/x", vec![".."; k].join("/"))];
+            emit(d14_case(&e));
+        }
+    }
+    // long names and long paths (>= 256, >= 4096 characters), as relative path, absolute path, other URI, buildpack URI and packaged location
+    for &len in &[255usize, 256, 257, 1000, 4095, 4096, 5000] {
+        let mut r = rng(&mut idx);
+        let name = "n".repeat(len);
+        let many = (0..len / 4).map(|i| format!("c{}", i % 7)).collect::<Vec<_>>().join("/");
+        let mut d = base("long");
+        d.src = r.pick(&srcs).clone();
+        d.map = vec![("long/id".into(), format!("$T/packaged/{name}")), (format!("id-{}", "i".repeat(len.min(1000))), "/opt/x".into())];
+        d.deps = vec![name.clone(), format!("../{name}/../{name}"), many.clone(), format!("{many}/../../x"), format!("/{many}/./x"), format!("https://example.com/{name}?q={name}"), format!("urn:cnb:{name}"),
+                      "libcnb:long/id".into(), format!("libcnb:{}", d.map[1].0), format!("./{}", vec![".."; len / 3].join("/"))];
+        d.bp = if len % 2 == 0 { name.clone() } else { format!("../{many}") };
+        emit(d14_case(&d));
+    }
+    // ---- 4. character content: every special segment as the only, a middle, the last segment of a relative path, after '..', with a trailing slash,
+    //         inside an absolute path and an opaque URI (copied verbatim), and as packaged location of a libcnb reference; crossed with source locations
+    let colon_ok: Vec<&str> = SEGS.iter().chain(COLON_SEGS).copied().collect();
+    for (si, seg) in colon_ok.iter().enumerate() {
+        let mut r = rng(&mut idx);
+        let first_ok = !seg.contains(':');
+        let mut d = base("chars");
+        d.src = if si % 3 == 0 { "ws/bp".into() } else { r.pick(&srcs).clone() };
+        d.map = vec![("c/seg".into(), format!("$T/packaged/{seg}")), ("c/seg2".into(), format!("/opt/{seg}/{seg}/"))];
+        if first_ok { d.deps.push(seg.to_string()); d.deps.push(format!("{seg}/")); d.deps.push(format!("{seg}/../{seg}/x")); }
+        d.deps.extend([format!("./{seg}"), format!("a/{seg}/b"), format!("../{seg}"), format!("../../{seg}/./../{seg}/"), format!("x/{seg}/.."), format!("/abs/{seg}/../x"), format!("urn:x:{seg}"),
+                       format!("https://example.com/{seg}/../y"), "libcnb:c/seg".into(), "libcnb:c/seg2".into()]);
+        d.bp = match si % 4 { 0 => ".".into(), 1 => format!("./{seg}"), 2 => format!("/abs/{seg}"), _ => format!("x:{seg}") };
+        d.opt = ["", "twice", "link", ""][si % 4];
+        emit(d14_case(&d));
+    }
+    // every source location of the wide pool with one fixed descriptor (location dimension on its own)
+    for (i, src) in srcs.iter().enumerate() {
+        for opt in ["", "twice", "link", "twice+link"] {
+            let mut d = base("src");
+            d.src = src.clone();
+            d.opt = opt;
+            d.map = vec![("heroku/nodejs".into(), "$T/packaged/heroku_nodejs".into())];
+            d.deps = vec![".".into(), "..".into(), "../..".into(), "x".into(), "../x/./y/".into(), "../../../../../../../../up".into(), "libcnb:heroku/nodejs".into(), "/abs/path/bp".into(), "docker://docker.io/heroku/example:1.2.3".into(), "a/../../b".into()];
+            d.platform = ["none", "linux", "windows"][i % 3];
+            emit(d14_case(&d));
+        }
+    }
+    // ---- 5. schemes: every scheme of the pools x the forms a URI with a scheme takes; names that only resemble `libcnb`
+    let forms: [&dyn Fn(&str) -> String; 7] = [&|s| format!("{s}:opaque"), &|s| format!("{s}:/abs/../x"), &|s| format!("{s}://host.example/p/../q"), &|s| format!("{s}:rel/./x/.."), &|s| format!("{s}:"),
+                                               &|s| format!("{s}://user@host.example:8080/a%20b?x=1#f"), &|s| format!("{s}:heroku/nodejs")];
+    let all_schemes: Vec<&str> = SCHEMES_REG.iter().chain(SCHEMES_UNREG).chain(SCHEMES_LIBCNBLIKE).copied().collect();
+    for chunk in all_schemes.chunks(4) {
+        let mut r = rng(&mut idx);
+        let mut d = base("schemes");
+        d.src = if r.chance(1, 2) { "ws/bp".into() } else { r.pick(&srcs).clone() };
+        d.map = vec![("heroku/nodejs".into(), "$T/packaged/heroku_nodejs".into())];
+        for s in chunk { for f in forms { d.deps.push(f(s)); } }
+        d.deps.insert(r.below(d.deps.len() as u64) as usize, "libcnb:heroku/nodejs".into());
+        d.bp = forms[r.below(7) as usize](chunk[0]);
+        emit(d14_case(&d));
+    }
+    // the known-finding class, kept apart (tag spelling=1): registered schemes in upper / mixed case, authority followed by an empty path for every kind of scheme
+    for chunk in all_schemes.chunks(6) {
+        let mut d = base("spelling");
+        d.map = vec![("heroku/nodejs".into(), "$T/packaged/heroku_nodejs".into())];
+        for s in chunk {
+            let up = s.to_uppercase();
+            let mixed: String = s.chars().enumerate().map(|(i, c)| if i % 2 == 0 { c.to_ascii_uppercase() } else { c }).collect();
+            d.deps.extend([format!("{up}:opaque"), format!("{mixed}://host.example/p"), format!("{s}://host.example"), format!("{s}://host.example?x=1"), format!("{up}://host.example#f")]);
+        }
+        emit(d14_case(&d));
+    }
+    // ---- 6. correlated ids: maps holding ids that are prefixes / one edit / case variants of each other; references to present and absent neighbours
+    let good: Vec<&str> = CORR_IDS.iter().copied().filter(|i| valid_id(i)).collect();
+    for round in 0..(if thorough { 400 } else { 60 }) {
+        let mut r = rng(&mut idx);
+        let mut pool = good.clone();
+        r.shuffle(&mut pool);
+        let k = r.range(2, 12) as usize;
+        let (known, absent) = pool.split_at(k);
+        let mut d = base("corr-ids");
+        d.src = if round % 2 == 0 { "ws/bp".into() } else { r.pick(&srcs).clone() };
+        // two ids may share a location; a location may be the source directory itself
+        d.map = known.iter().enumerate().map(|(i, id)| (id.to_string(), if i == 1 && r.chance(1, 2) { format!("$T/packaged/{}", leaf_of(known[0])) } else if r.chance(1, 10) { format!("$T/{}", "ws/bp") } else { format!("$T/packaged/{}", leaf_of(id)) })).collect();
+        for _ in 0..r.range(1, 10) {
+            let id = *r.pick(known);
+            d.deps.push(match r.below(6) { 0 => id.to_string(), 1 => format!("./{id}"), 2 => format!("../packaged/{}", leaf_of(id)), _ => format!("libcnb:{id}") });
+        }
+        match round % 5 {
+            0 => { let at = r.below(d.deps.len() as u64 + 1) as usize; d.deps.insert(at, format!("libcnb:{}", r.pick(absent))); d.kind = "corr-ids-missing".into(); }
+            1 => { let bad = *r.pick(&["app", "config", "sbom", "a_b", "heroku/nodejs@1", "a b", "", "a%2Fb", "heroku/node.js+", "ä"]); if bad.is_ascii() && !bad.contains(' ') { let at = r.below(d.deps.len() as u64 + 1) as usize; d.deps.insert(at, format!("libcnb:{bad}")); d.kind = "corr-ids-invalid".into(); } }
+            _ => {}
+        }
+        emit(d14_case(&d));
+    }
+    // ---- 7. buildpack URI dimension (never rewritten, whatever it looks like)
+    let bps: Vec<String> = ["libcnb:heroku/nodejs", "libcnb:missing/id", "libcnb:app", "../../../../../../../../..", "a/../../b/./c//", "./%2e%2e/x", "my%20bp", "/abs/../x/.", "urn:cnb:registry:heroku/nodejs@1.0.0", "x:", "file:///a/b/../c",
+        "https://user:pw@host.example:8443/p/q?x=1#f", "docker://docker.io/heroku/example:1.2.3", "~", "+", "$T/x", "a:b", "./a:b", "//host/path", "?q", "#f", "x?y#z"].iter().map(|s| s.to_string()).collect();
+    for (i, bp) in bps.iter().enumerate() {
+        let mut d = base("bp-uri");
+        d.bp = bp.clone();
+        d.src = srcs[i % srcs.len()].clone();
+        d.map = vec![("heroku/nodejs".into(), "$T/packaged/heroku_nodejs".into())];
+        d.deps = vec!["libcnb:heroku/nodejs".into(), "../x".into(), bp.clone()];
+        if bp.starts_with("libcnb:") || bp.starts_with("//") || bp.starts_with('?') || bp.starts_with('#') || bp.contains('?') && !bp.contains(':') { d.deps.pop(); }
+        d.platform = ["none", "linux", "windows"][i % 3];
+        d.opt = ["", "twice"][i % 2];
+        emit(d14_case(&d));
+    }
+    // ---- 8. known finding C14-root-colon-segment: a text `/<segment holding ':'>…` reaches uriparse — as the path a relative dependency denotes
+    //         (it climbs to `/`), as an absolute dependency or buildpack URI written in package.toml, as packaged location of a libcnb reference;
+    //         alone, and together with things that must win (earlier missing / invalid reference) or lose (later ones)
+    for (i, seg) in COLON_SEGS.iter().enumerate() {
+        let mut d = base("root-colon");
+        d.deps = vec![format!("../../../../{seg}/x"), format!("../../../../../../{seg}"), format!("../../../../x/../{seg}/./y")];
+        emit(d14_case(&d));
+        for dep in [format!("../../../../{seg}/x"), format!("../../../../{seg}"), format!("../../../../../../../../../x/../{seg}/./y/")] {
+            let mut d = base("root-colon");
+            d.src = ["ws/bp", "x", "ws/deep/er/bp"][i % 3].into();
+            d.deps = vec!["ok/../fine".into(), dep, "docker://docker.io/heroku/example:1.2.3".into()];
+            emit(d14_case(&d));
+        }
+        // a colon in a later segment, or behind `/.`, is accepted
+        let mut d = base("root-colon-later");
+        d.deps = vec![format!("../../../../x/{seg}"), format!("/a/{seg}/x"), format!("/./{seg}"), format!("../../../{seg}"), format!("../{seg}/..")];
+        d.map = vec![("c/loc".into(), format!("/opt/{seg}/x"))];
+        d.deps.push("libcnb:c/loc".into());
+        emit(d14_case(&d));
+        // written as an absolute dependency / as the buildpack URI
+        let mut d = base("root-colon");
+        d.deps = vec!["../x".into(), format!("/{seg}/x")];
+        emit(d14_case(&d));
+        let mut d = base("root-colon");
+        d.bp = format!("/{seg}");
+        d.deps = vec!["../x".into()];
+        emit(d14_case(&d));
+        // as packaged location: referenced (alone / before a missing reference / after one / after an invalid one) and not referenced
+        let map = vec![("c/loc".to_string(), format!("/{seg}/packaged")), ("c/fine".to_string(), "$T/packaged/fine".to_string())];
+        for deps in [vec!["libcnb:c/loc"], vec!["libcnb:c/fine", "libcnb:c/loc", "libcnb:c/absent"], vec!["libcnb:c/absent", "libcnb:c/loc"], vec!["libcnb:under_score", "libcnb:c/loc"], vec!["libcnb:c/fine", "../x"]] {
+            let mut d = base("root-colon");
+            d.map = map.clone();
+            d.deps = deps.iter().map(|x| x.to_string()).collect();
+            emit(d14_case(&d));
+        }
+        // a relative dependency that lands there, after a reference without location (the missing reference must be what is reported)
+        let mut d = base("root-colon");
+        d.deps = vec![format!("../../../../{seg}"), "libcnb:c/absent".into()];
+        emit(d14_case(&d));
+    }
+}
+
+/// seeded sampling over the wide pools: every dimension drawn independently, sizes occasionally beyond the thresholds
+fn generate_wide(thorough: bool, seed: u64, emit: &mut dyn FnMut(Case)) {
+    let srcs = wide_srcs();
+    let samples: u64 = if thorough { 30_000 } else { 2_000 };
+    let mut good: Vec<&str> = CORR_IDS.iter().chain(IDS).copied().filter(|i| valid_id(i)).collect();
+    good.sort();
+    good.dedup();
+    let all_schemes: Vec<&str> = SCHEMES_REG.iter().chain(SCHEMES_UNREG).chain(SCHEMES_LIBCNBLIKE).copied().collect();
+    for idx in 0..samples {
+        let mut r = Rng::for_case(seed ^ 0x14_3A_7E, idx);
+        let seg = |r: &mut Rng, first: bool| -> String {
+            match r.below(12) { 0 | 1 => "..".into(), 2 => ".".into(), 3 => if first { ".".into() } else { "".into() }, 4..=6 => (*r.pick(NAMES)).to_string(),
+                                 7 if !first => (*r.pick(COLON_SEGS)).to_string(), _ => (*r.pick(SEGS)).to_string() }
+        };
+        let rel = |r: &mut Rng| -> String {
+            let n = match r.below(20) { 0 => r.range(10, 40), 1 => *r.pick(SIZES) as u64, _ => r.range(1, 9) };
+            let mut v: Vec<String> = (0..n).map(|i| seg(r, i == 0)).collect();
+            if r.chance(1, 6) { for _ in 0..r.range(1, 14) { v.insert(0, "..".into()); } }
+            if r.chance(1, 8) { v.push(String::new()); }
+            v.join("/")
+        };
+        let other = |r: &mut Rng| -> String {
+            match r.below(4) {
+                0 => (*r.pick(OTHERS)).to_string(),
+                1 => { let s = *r.pick(&all_schemes); match r.below(5) { 0 => format!("{s}:{}", r.pick(SEGS)), 1 => format!("{s}:/{}/../{}", r.pick(SEGS), r.pick(SEGS)), 2 => format!("{s}://h.example/{}", r.pick(SEGS)), 3 => format!("{s}:{}", r.pick(&good)), _ => format!("{s}:") } }
+                2 => format!("/{}/{}/../{}", r.pick(SEGS), r.pick(NAMES), r.pick(SEGS)),
+                _ => format!("/{}", rel(r)),
+            }
+        };
+        let mut pool = good.clone();
+        r.shuffle(&mut pool);
+        let nk = if r.chance(1, 20) { (*r.pick(&[17usize, 33, 65])).min(pool.len() - 3) } else { r.range(0, 8) as usize };
+        let (known, absent) = pool.split_at(nk);
+        let map: Vec<(String, String)> = known.iter().map(|id| (id.to_string(), loc_for(&mut r, &leaf_of(id)))).collect();
+        let ndeps = match r.below(30) { 0 => 0, 1 => *r.pick(SIZES), 2 => r.range(13, 40) as usize, _ => r.range(1, 12) as usize };
+        let mut deps: Vec<String> = vec![];
+        for _ in 0..ndeps {
+            match r.below(10) {
+                0..=2 if !known.is_empty() => deps.push(format!("libcnb:{}", r.pick(known))),
+                3..=6 => deps.push(rel(&mut r)),
+                _ => deps.push(other(&mut r)),
+            }
+            if r.chance(1, 10) && !deps.is_empty() { let again = r.pick(&deps).clone(); deps.push(again); } // the same dependency twice
+        }
+        let mode = r.below(20);
+        let mut kind = "wide";
+        if mode == 0 { let at = r.below(deps.len() as u64 + 1) as usize; deps.insert(at, format!("libcnb:{}", r.pick(BAD_IDS))); kind = "wide-invalid-id"; }
+        else if mode <= 2 { let at = r.below(deps.len() as u64 + 1) as usize; deps.insert(at, format!("libcnb:{}", r.pick(absent))); kind = "wide-missing-id"; }
+        let bp = match r.below(6) { 0 => rel(&mut r), 1 => other(&mut r), 2 => (*r.pick(BPS)).to_string(), _ => ".".to_string() };
+        let src = if r.chance(1, 3) { (*r.pick(SRCS)).to_string() } else { r.pick(&srcs).clone() };
+        let d = D14 { src, bp, deps, platform: *r.pick(&["none", "none", "linux", "windows"]), map,
+                      opt: *r.pick(&["", "", "", "twice", "link", "twice+link"]), kind: kind.into() };
+        emit(d14_case(&d));
     }
 }
 
